@@ -93,8 +93,8 @@ add("C06.handling_error","VH_c06_handling_error",SRV,sc+["server/c06.go","server
 for two in (0,1):
     add("C06.recvloop_%s"%("two" if two else "one"),"VH_c06_recvloop",SRV,sc+["server/c06.go","server/c06cat.go"],{"two":two},{"two":two},merge=UM,expect_reach=["install","withdraw","reset"],bounds="the real recvMessageloop reading one UPDATE (base + %s catalogue fault(s)) from a scripted transport; eBGP/iBGP x revised error handling on/off"%("two" if two else "one"))
 add("C02.server_history","VH_c02_server_history",SRV,sc+["server/c02.go"],{"params":{"steps":2},"unwind":2200},{"params":{"steps":3},"unwind":2200},expect_reach=["installed","looped"],bounds="real BgpServer.handleFSMMessage, one eBGP peer, one prefix, every history of 2 (quick) / 3 UPDATEs over {clean announce (symbolic AS), looped announce, withdraw}")
-add("C01.server_fanout","VH_c01_server_fanout",SRV,sc+["server/c01.go"],{"params":{"steps":2},"unwind":2200},{"params":{"steps":3},"unwind":2200},expect_reach=["advertised","empty","reflected"],bounds="real BgpServer.handleFSMMessage; 5 established peers (eBGP source, iBGP source, eBGP target, iBGP target, route-reflector client), one prefix, every history of 2 (quick) / 3 UPDATEs (source, announce with symbolic AS / withdraw); observed at each peer's outgoing queue")
-add("C01.server_addpath","VH_c01_server_addpath",SRV,sc+["server/c01.go"],{"params":{"steps":4,"sources":2,"sendmax":1},"unwind":2200},{"params":{"steps":5,"sources":3,"sendmax":2},"unwind":2200,"harness_s":3000},expect_reach=["advertised","held_back"],bounds="real BgpServer.handleFSMMessage; `sources` eBGP sources and one ADD-PATH-send target with send-max `sendmax`, one prefix, every history of `steps` announce/withdraw events")
+add("C01.server_fanout","VH_c01_server_fanout",SRV,sc+["server/c01.go","server/c07.go"],{"params":{"steps":2},"unwind":2200},{"params":{"steps":3},"unwind":2200},expect_reach=["advertised","empty","reflected"],bounds="real BgpServer.handleFSMMessage; 5 established peers (eBGP source, iBGP source, eBGP target, iBGP target, route-reflector client), one prefix, every history of 2 (quick) / 3 UPDATEs (source, announce with symbolic AS / withdraw); observed at each peer's outgoing queue")
+add("C01.server_addpath","VH_c01_server_addpath",SRV,sc+["server/c01.go","server/c07.go"],{"params":{"steps":4,"sources":2,"sendmax":1},"unwind":2200},{"params":{"steps":5,"sources":3,"sendmax":2},"unwind":2200,"harness_s":3000},expect_reach=["advertised","held_back"],bounds="real BgpServer.handleFSMMessage; `sources` eBGP sources and one ADD-PATH-send target with send-max `sendmax`, one prefix, every history of `steps` announce/withdraw events")
 C08B="real fsm.stateChange(Established)/open2Cap: "
 add("C08.timers","VH_c08_negotiate",SRV,sc+["server/c08.go"],{"tuples":0,"aspect":1},{"tuples":0,"aspect":1},expect_reach=["end"],bounds=C08B+"local hold 0|3..65535, local keepalive 0..65535, remote hold 0|3..65535 (floating point decided in the SMT FloatingPoint theory)")
 add("C08.families","VH_c08_negotiate",SRV,sc+["server/c08.go"],{"tuples":2,"aspect":2},{"tuples":3,"aspect":2},expect_reach=["end","addpath"],bounds=C08B+"2 families configured on/off with ADD-PATH send/receive per family x received OPEN with MP capability per family or none and `tuples` ADD-PATH tuples (symbolic family and mode, in one or two capabilities)")
@@ -107,7 +107,7 @@ add("C07.dominant","VH_c07_dominant",SRV,sc+["server/c07.go"],expect_reach=["end
 add("C07.established","VH_c07_established",SRV,sc+["server/c07.go"],expect_reach=["hold_expired","notification","refused","closed","admin_down","prefix_limit"],bounds="one step of the real fsmHandler.established with its receive and send goroutines (cooperative schedule) on a scripted transport and the virtual clock: every event of {KEEPALIVE, UPDATE, NOTIFICATION (any code 1..6 / subcode), OPEN, header with bad marker / length / type, connection closed by the peer, silence, administrative shutdown, prefix-limit shutdown} followed by silence x graceful restart / N bit negotiated or not; hold time 3 s")
 add("C07.idle","VH_c07_idle",SRV,sc+["server/c07.go"],expect_reach=["active"],bounds="the real fsmHandler.idle for each admin state (up, down, prefix-limit shutdown), idle hold time 1..2 s; paths on which the handler never returns end unobserved")
 add("C07.server_guards","VH_c07_server_guards",SRV,sc+["server/c07.go"],{"params":{"updates":2},"unwind":2200},{"params":{"updates":3},"unwind":2200},expect_reach=["ignored","limit","installed"],bounds="real BgpServer.handleFSMMessage with the peer in each of the 6 states, message older than the session or not, prefix limit 0..2, `updates` UPDATEs for distinct prefixes")
-add("C12.gr_cycle","VH_c12_gr_cycle",SRV,sc+["server/c12.go"],{"params":{},"unwind":4200},{"params":{},"unwind":4200},fixed_clock=True,expect_reach=["dropped","timer_expired","all_eor","waiting"],bounds="real BgpServer.handleFSMMessage / fsm.stateChange over a full cycle: session with 2 families and a symbolic subset of them in the peer's GR capability; 1 route per family + End-of-RIB; graceful or non-graceful loss; then restart-timer expiry, or re-establishment with symbolic partial re-announcement and End-of-RIB per family")
+add("C12.gr_cycle","VH_c12_gr_cycle",SRV,sc+["server/c12.go","server/c07.go"],{"params":{},"unwind":4200},{"params":{},"unwind":4200},fixed_clock=True,expect_reach=["dropped","timer_expired","all_eor","waiting"],bounds="real BgpServer.handleFSMMessage / fsm.stateChange over a full cycle: session with 2 families and a symbolic subset of them in the peer's GR capability; 1 route per family + End-of-RIB; graceful or non-graceful loss; then restart-timer expiry, or re-establishment with symbolic partial re-announcement and End-of-RIB per family")
 add("C12.loss_classification","VH_c07_established",SRV,sc+["server/c07.go"],expect_reach=["hold_expired","notification","closed","admin_down"],bounds="classification of the loss reason by the real fsmHandler.established / recvMessageloop: every event x graceful restart / N bit negotiated or not (see C07.established)")
 API="pkg/apiutil"
 add("C18.attrs","VH_c18_attrs",API,["apiutil/c18.go"],expect_reach=["end"],bounds="MarshalPathAttributes -> UnmarshalPathAttributes, one attribute of each of 17 kinds (ORIGIN .. PMSI tunnel, 4 extended-community kinds, unknown attribute) with symbolic numeric fields; addresses concrete")
@@ -125,7 +125,7 @@ for d,exp in (("in",0),("out",1),("refresh",2)):
             q={"params":{"export":exp,"routes":1,"addpath":0},"unwind":2200,"harness_s":600}
             if (o,n) not in ((0,2),(2,0),(1,3),(3,2)): q["skip"]=True
             add("C15.soft_reset_%s.o%dn%d"%(d,o,n),"VH_c15_soft_reset",SRV,sc+["server/c15.go"],q,{"params":{"export":exp,"routes":2,"addpath":0},"unwind":2200,"harness_s":1800},expect_reach=["end"],fixed_clock=True,pins={"old_op":o,"new_op":n},bounds=C15B%(["in (import policy)","out (export policy)","replaced by a ROUTE-REFRESH from the peer (export policy)"][exp])+"; this instance: old operator %d, new operator %d (0 = no policy); quick tier: 1 route and 4 of the 15 operator pairs per direction"%(o,n))
-add("C01.server_flaps","VH_c01_server_flaps",SRV,sc+["server/c01.go"],{"params":{"steps":3},"unwind":4200,"harness_s":600},{"params":{"steps":4},"unwind":4200,"harness_s":2400},expect_reach=["advertised","source_lost"],fixed_clock=True,bounds="real BgpServer.handleFSMMessage incl. its PeerDown and Established (initial table transfer) branches and fsm.stateChange: 2 eBGP sources and 1 eBGP target, one prefix, every history of 3 (quick) / 4 events over {announce (symbolic AS) / withdraw from either source, loss of a source's session, flap of the target's session}")
+add("C01.server_flaps","VH_c01_server_flaps",SRV,sc+["server/c01.go","server/c07.go"],{"params":{"steps":3},"unwind":4200,"harness_s":600},{"params":{"steps":4},"unwind":4200,"harness_s":2400},expect_reach=["advertised","source_lost"],fixed_clock=True,bounds="real BgpServer.handleFSMMessage incl. its PeerDown and Established (initial table transfer) branches and fsm.stateChange: 2 eBGP sources and 1 eBGP target, one prefix, every history of 3 (quick) / 4 events over {announce (symbolic AS) / withdraw from either source, loss of a source's session, flap of the target's session}")
 for asp,nm in ((1,"timers"),(2,"caps")):
     add("C08.open_sent_"+nm,"VH_c08_open_sent",SRV,sc+["server/c08.go"],{"aspect":asp},{"aspect":asp},expect_reach=["end"],bounds="real buildopen / capabilitiesFromConfig / capAddPathFromConfig: local AS 1..2^32-1; "+("hold time 0..65535 symbolic (float64 round trip in the FP theory), capabilities fixed" if asp==1 else "2 families on/off, ADD-PATH receive/send per family, graceful restart on/off per family, restart time symbolic; hold 90")+"; the OPEN is serialised and re-parsed")
 add("C07.collision","VH_c07_collision",SRV,sc+["server/c07.go"],expect_reach=["kept_outgoing","kept_incoming"],bounds="real fsmHandler.opensent with an OPEN on the incoming connection and a completed active open queued at the same time; both orders in which select may serve them; last octet of both BGP identifiers symbolic (local AS below the remote AS)")
@@ -133,7 +133,7 @@ add("C18.api_path","VH_c18_api_path",SRV,sc+["server/c18api.go"],{"params":{},"u
 add("C15.sequence","VH_c15_sequence",SRV,sc+["server/c15.go"],{"params":{"steps":2,"routes":1,"addpath":0},"unwind":2200,"harness_s":600},{"params":{"steps":3,"routes":1,"addpath":0},"unwind":2200,"harness_s":1800},expect_reach=["end"],fixed_clock=True,bounds="export policy switched 2 (quick) / 3 times between accept-all and reject-all, each switch followed by a soft reset out or a ROUTE-REFRESH (all combinations); final view versus a fresh server under the final policy")
 add("C15.soft_reset_in_addpath","VH_c15_soft_reset",SRV,sc+["server/c15.go"],{"params":{"export":0,"routes":1,"addpath":1},"unwind":2200,"harness_s":600},{"params":{"export":0,"routes":2,"addpath":1},"unwind":2200,"harness_s":1800},expect_reach=["end"],fixed_clock=True,pins={"old_op":2,"new_op":0},bounds=C15B%"in (import policy)"+"; the source negotiated ADD-PATH receive and each prefix has an earlier path (other identifier) rejected for an AS loop stored in front of the usable one; old policy 'length ge threshold', new policy none")
 add("C15.defined_set","VH_c15_defined_set",SRV,sc+["server/c15.go"],{"params":{"routes":2,"addpath":0},"unwind":2200,"harness_s":600},{"params":{"routes":2,"addpath":0},"unwind":2200,"harness_s":1800},expect_reach=["end"],fixed_clock=True,bounds="import policy 'reject the prefixes of prefix set ps1'; the set (any non-empty subset of 2 prefixes) is replaced by another through RoutingPolicy.AddDefinedSet(replace), then soft reset in; 2 routes; versus a fresh server configured with the new set")
-add("C12.llgr","VH_c12_llgr",SRV,sc+["server/c12.go"],{"params":{},"unwind":4200,"harness_s":600},{"params":{},"unwind":4200,"harness_s":1200},expect_reach=["end"],fixed_clock=True,bounds="real handleFSMMessage long-lived GR branch, markLLGRStale / postFilterpath, the per-family timer goroutines and the real management loop (cooperative schedule, virtual clock): IPv4 always and IPv6 symbolically in the peer's LLGR capability, long-lived time 1..2 s, 3 routes (plain, NO_LLGR, IPv6), one LLGR-capable and one plain observer peer")
+add("C12.llgr","VH_c12_llgr",SRV,sc+["server/c12.go","server/c07.go"],{"params":{},"unwind":4200,"harness_s":600},{"params":{},"unwind":4200,"harness_s":1200},expect_reach=["end"],fixed_clock=True,bounds="real handleFSMMessage long-lived GR branch, markLLGRStale / postFilterpath, the per-family timer goroutines and the real management loop (cooperative schedule, virtual clock): IPv4 always and IPv6 symbolically in the peer's LLGR capability, long-lived time 1..2 s, 3 routes (plain, NO_LLGR, IPv6), one LLGR-capable and one plain observer peer")
 add("C07.hold_restart","VH_c07_hold_restart",SRV,sc+["server/c07.go"],expect_reach=["end"],bounds="real fsmHandler.established with its receive and send goroutines on the virtual clock: a KEEPALIVE or UPDATE arriving 1..2 s into the session, then silence; hold time 3 s, keepalive interval 1 s")
 add("C02.server_sources","VH_c02_server_sources",SRV,sc+["server/c02.go"],{"params":{"steps":2},"unwind":4200,"harness_s":600},{"params":{"steps":3},"unwind":4200,"harness_s":2400},expect_reach=["two","ended"],fixed_clock=True,bounds="real BgpServer.handleFSMMessage / deleteNeighbor: 2 eBGP sources, one prefix, every history of 2 (quick) / 3 events over {announce (AS_PATH length 1..2, symbolic second AS incl. the local AS), withdraw, session lost, peer deleted} x source")
 
@@ -155,4 +155,7 @@ split_thorough("C02.server_sources","event#0",4)
 split_thorough("C17.server_rtc","origin_as#0",2)
 add("C02.best_stream","VH_c02_best_stream",SRV,sc+["server/c02.go"],{"params":{"steps":2},"unwind":4200,"harness_s":600},{"params":{"steps":3},"unwind":4200,"harness_s":2400},expect_reach=["matches","empty"],fixed_clock=True,bounds="real BgpServer.watch(WatchBestPath) with the management loop and the watcher's pump goroutine (cooperative schedule): 2 eBGP sources x 2 prefixes, every history of 2 (quick) / 3 events over {announce (AS_PATH length 1..2), withdraw, session lost}; notifications applied in order versus GetBestPathList")
 split_thorough("C02.best_stream","source#0",2)
-add("C12.deferral","VH_c12_deferral",SRV,sc+["server/c12.go"],{"params":{},"unwind":4200,"harness_s":600},{"params":{},"unwind":4200,"harness_s":1200},expect_reach=["all_eor","deferral_expired"],fixed_clock=True,bounds="real handleFSMMessage restarting-speaker branches, the deferral time.AfterFunc (virtual clock) and softResetOut(deferral) through the real management loop: 2 graceful-restart peers, one route from the first, the second sends End-of-RIB or stays silent until the deferral timer (1..2 s) fires")
+add("C12.deferral","VH_c12_deferral",SRV,sc+["server/c12.go","server/c07.go"],{"params":{},"unwind":4200,"harness_s":600},{"params":{},"unwind":4200,"harness_s":1200},expect_reach=["all_eor","deferral_expired"],fixed_clock=True,bounds="real handleFSMMessage restarting-speaker branches, the deferral time.AfterFunc (virtual clock) and softResetOut(deferral) through the real management loop: 2 graceful-restart peers, one route from the first, the second sends End-of-RIB or stays silent until the deferral timer (1..2 s) fires")
+add("C07.validate_open","VH_c07_validate_open",SRV,sc+["server/c07.go"],expect_reach=["accepted","refused"],bounds="bgp.ValidateOpenMsg for every version, hold time, local AS, configured peer AS (0 = not configured), remote AS 1..2^32-1 with or without the 4-octet capability, identifier in {0.0.0.0, the local one, another}")
+add("C12.restart_timer","VH_c12_restart_timer",SRV,sc+["server/c12.go","server/c07.go"],expect_reach=["end"],bounds="real fsmHandler.established (transport failure with GR negotiated) then fsmHandler.idle on the virtual clock: peer restart time 1..2 s, local restart time 3..4 s")
+add("C01.transport","VH_c01_transport",SRV,sc+["server/c01.go","server/c07.go"],{"batches":2},{"batches":3},expect_reach=["end"],bounds="real fsmHandler.sendMessageloop (coalescing, CreateUpdateMsgFromPaths, Serialize) writing to a scripted transport: 2 (quick) / 3 queued batches of 1..2 route changes over 2 prefixes (announce with symbolic MED / withdraw), bytes parsed back with ParseBGPMessage and applied in order")
